@@ -118,6 +118,22 @@ def is_mapped(body, expr_full, expr_var, of, ov, depth=0):
     return False
 
 
+def id_range_refusal(ctx, prog, rid):
+    """to_global_doc_id refuses tenant-local ids above u32::MAX (C10.R2; shared with C15.R2: such a request must be answered INVALID_ARGUMENT without effect)."""
+    tg = ctx.body(rid, 'TenantIdMapper::to_global_doc_id')
+    tgv = flow.Origin(tg, stop_at_vars=True)
+    guard = [(i, t_) for i, blk in enumerate(tg.blocks) if blk['t']['k'] == 'switch' for t_, p in flow.switch_edge_predicates(tg, i, tgv)
+             if re.match(r'^cmp\[\+ arg:local_doc_id >= 4294967296\]$', p)]
+    okg = bool(guard)
+    if okg:
+        errs = flow.err_blocks(tg)
+        rr = tg.reach([e[1] for e in guard], avoid_blocks=errs) | (set(e[1] for e in guard) - errs)
+        okg = not any(x in rr for x in tg.return_blocks())
+    ret = flow.render(tgv.of_local(0))
+    ctx.inst(rid, tg.short, 'refuses local ids above u32::MAX; global = (tenant_index << 32) | local', okg and bool(re.search(r'\(\(arg:tenant_index Shl 32\) BitOr arg:local_doc_id\)', ret)),
+             'guard %s; returns %s' % (guard, ret[:120]))
+
+
 def run(ctx, prog):
     ctx.not_decided = ['leaks through the number of results of a global k-NN that is filtered afterwards', 'timing side channels',
                        '64-bit collisions of the query-cache scope hash (responses are re-filtered per tenant anyway)']
@@ -246,18 +262,7 @@ def run(ctx, prog):
                     idx = sum(1 for x in ctx.instances if x['rule'] == 'C10.R2' and x['key'].startswith('C10.R2 | %s | response' % b.short.split('::{')[0]))
                     ctx.inst('C10.R2', b.short.split('::{')[0], 'response doc_id #%d is the request id or an unmapped id' % idx, ok, 'doc_id = %s' % r[:140])
     ctx.floor('C10.R2', 'response aggregates carrying a doc_id', n_resp, 5, 'query ×4, bulk_query, search result')
-    tg = ctx.body('C10.R2', 'TenantIdMapper::to_global_doc_id')
-    tgv = flow.Origin(tg, stop_at_vars=True)
-    guard = [(i, t_) for i, blk in enumerate(tg.blocks) if blk['t']['k'] == 'switch' for t_, p in flow.switch_edge_predicates(tg, i, tgv)
-             if re.match(r'^cmp\[\+ arg:local_doc_id >= 4294967296\]$', p)]
-    okg = bool(guard)
-    if okg:
-        errs = flow.err_blocks(tg)
-        rr = tg.reach([e[1] for e in guard], avoid_blocks=errs) | (set(e[1] for e in guard) - errs)
-        okg = not any(x in rr for x in tg.return_blocks())
-    ret = flow.render(tgv.of_local(0))
-    ctx.inst('C10.R2', tg.short, 'refuses local ids above u32::MAX; global = (tenant_index << 32) | local', okg and bool(re.search(r'\(\(arg:tenant_index Shl 32\) BitOr arg:local_doc_id\)', ret)),
-             'guard %s; returns %s' % (guard, ret[:120]))
+    id_range_refusal(ctx, prog, 'C10.R2')
     it = ctx.body('C10.R2', 'TenantIdMapper::is_tenant_doc_id')
     ret = flow.render(flow.Origin(it, stop_at_vars=True).of_local(0))
     ctx.inst('C10.R2', it.short, 'compares the high word with the tenant index', bool(re.search(r'\(\(arg:global_doc_id Shr 32\) Eq arg:tenant_index\)', ret)), 'returns %s' % ret[:100])
